@@ -1508,10 +1508,10 @@ impl UntypedExpr {
 
                     for (_, expr) in typed_clauses.iter_mut() {
                         if ret_ty != expr.ty {
-                            if let Type::Unsigned(expected) = ret_ty {
-                                check_or_constrain_unsigned(expr, expected)?;
-                            } else if let Type::Signed(expected) = ret_ty {
-                                check_or_constrain_signed(expr, expected)?;
+                            if let Type::Unsigned(_) | Type::Signed(_) = ret_ty {
+                                // the body of a clause is a block, so the literals that must become
+                                // (and fit) the result type are inside it:
+                                check_type(expr, &ret_ty)?;
                             } else {
                                 let e = TypeErrorEnum::UnexpectedType {
                                     expected: ret_ty.clone(),
